@@ -128,11 +128,16 @@ func genXMLCase(t *rapid.T, kinds []string) TCase {
 			k.Out = pick(t, messages, "outmsg")
 		}
 	case Fail, Error:
-		if uni(t, 4, "rerun") == 0 {
+		if uni(t, 3, "rerun") == 0 {
 			if k.Kind == Fail {
 				k.RerunF = 1 + uni(t, 2, "rf")
 			} else {
 				k.RerunE = 1 + uni(t, 2, "re")
+				// mixed: an errored case whose re-runs also *failed*; still one errored case
+				// (core.TestSuite.Errors: "don't care about the presence of failures"; Failures: "no errors")
+				if uni(t, 2, "mixed") == 0 {
+					k.RerunF = 1 + uni(t, 2, "rf")
+				}
 			}
 		}
 	}
